@@ -153,7 +153,7 @@ theorem loop_mols_eq_runN (Kn : Kernels γ σ α) (abs : α → α) (eps : α) :
     is frozen in both runs). -/
 theorem traj_eq_of_sim (Kn : Kernels γ σ α) (abs : α → α) (eps : α) (k0 : Nat)
     (R : γ → γ → Prop) (stB stA : State γ σ α) (i j : Nat)
-    (hfB : ∀ m ∈ stB.mols, Frozen Kn abs eps m) (hfA : ∀ m ∈ stA.mols, Frozen Kn abs eps m)
+    (hfB : ∀ m ∈ stB.mols, Frozen Kn abs eps m)
     (h0 : stB.mols[i]? = stA.mols[j]?)
     (hR0 : ∀ m, stB.mols[i]? = some m → m.active = true → R stB.g stA.g)
     (hstep : ∀ n m, (runN Kn abs eps k0 n stB).mols[i]? = some m →
